@@ -184,6 +184,34 @@ def nontrivial(case):
     return True
 
 
+def written_targets(ck, rt_cases, rng, n):
+    """The property speaks of the relationship target WRITTEN for a source -> target pair: relative_ref's answer goes
+    through _Relationships / CT_Relationships into the Target attribute of the serialised rels item.  For sampled pairs
+    the Target read from the bytes the real writer produces must resolve from the source's directory back to the target."""
+    from lxml import etree
+    from pptx.opc.package import Part, _Relationships
+    from pptx.opc.packuri import PackURI
+    pairs = rt_cases if len(rt_cases) <= n else rng.sample(rt_cases, n)
+    for _k, src, tgt in pairs:
+        try:
+            s_uri, t_uri = PackURI(src), PackURI(tgt)
+            rels = _Relationships(s_uri.baseURI)
+            part = Part(t_uri, "application/xml", None, b"")
+            rid = rels.get_or_add("http://example.com/rt", part)
+            root = etree.fromstring(rels.xml)
+            target = [e.get("Target") for e in root if e.get("Id") == rid][0]
+            back = PackURI.from_rel_ref(s_uri.baseURI, target)
+        except Exception as e:  # noqa
+            ck.violation("written-target-raises", "writing the relationship %s -> %s raised %s: %s" % (src, tgt, type(e).__name__, str(e)[:120]),
+                         {"entry_point": "_Relationships.get_or_add + .xml", "input": [src, tgt], "impl_outcome": type(e).__name__})
+            continue
+        ck.count(("written", src, tgt), src != tgt, "written-target")
+        if str(back) != tgt:
+            ck.violation("written-target", "the relationship target written for %s -> %s is %r, which resolves from %s to %s" % (
+                src, tgt, target, s_uri.baseURI, back),
+                {"entry_point": "_Relationships.xml (CT_Relationships.add_rel)", "input": [src, tgt], "impl_outcome": [target, str(back)]})
+
+
 def run(ck, tier, rng):
     ck.build = coq_build("C19")
     cases = gen_cases(tier, rng)
@@ -191,6 +219,7 @@ def run(ck, tier, rng):
     for c, o in zip(cases, impl_out):
         ck.count(c, nontrivial(c), c[0])
         oracle(ck, c, o)
+    written_targets(ck, [c for c in cases if c[0] == "rt"], rng, 1500 if tier == "quick" else 20000)
     for c in cases[:3] + cases[-400:-397] + [c for c in cases if c[0] == "frr"][:3]:
         ck.sample(list(c), limit=12)
     concrete_before = len(ck.violations)
